@@ -321,7 +321,9 @@ func c09NewWorld(r *rand.Rand, pool []c09Q) *c09World {
 func (w *c09World) now() int64 { return int64(time.Since(w.base)) }
 
 func (w *c09World) setScript(proto, name string, s []c09Beh) {
+	w.mu.Lock()
 	w.script[proto+"|"+strings.ToLower(name)] = s
+	w.mu.Unlock()
 }
 
 // begin logs an upstream call and returns the behaviour scripted for it.
